@@ -295,7 +295,10 @@ public:
     {
         doRemoveEntries();
 
-        if (!m_buckets.empty())
+        // (empty() does not create the head node of a list that
+        // has never been used, which begin() would, and a destructor
+        // must not allocate memory.)
+        if (!m_buckets.empty() && !m_freeEntries.empty())
         {
             EntryListIterator   toRemove = m_freeEntries.begin();
 
